@@ -6,7 +6,7 @@
 From Coq Require Import List NArith ZArith Arith Lia.
 From Gemato Require Import Py.PyStr Py.PyPath Gen.Tables Model.Entry Model.Text Model.OpenPGP Model.Hash Model.FS
   Model.Verify Model.Loader Model.Update.
-From Gemato Require Import Proofs.WalkTerm Proofs.UnregTerm Proofs.UpdateTerm Proofs.WalkComplete Proofs.NoLoop.
+From Gemato Require Import Proofs.WalkTerm Proofs.UnregTerm Proofs.UpdateTerm Proofs.WalkComplete Proofs.NoLoop Proofs.Once Proofs.DictWf Proofs.NoLoopTop.
 From Gemato Require Import Exec.Oracles.
 Import ListNotations.
 Open Scope N_scope.
@@ -70,17 +70,17 @@ Theorem C16_xdev_file : forall (L : hashlib) w path t p a s c d lm i st,
 Proof. exact verify_path_xdev. Qed.
 Print Assumptions C16_xdev_file.
 
-(* through the whole walk: when the verification of a sub-directory returns (True or False, any handler), every directory it
+(* through the whole walk: when the verification of a directory - any relative path, the top directory '' included - returns (True or False, any handler), every directory it
    reached - from the start, through listed sub-directories that are not hidden and have no entry - has an identity
    (st_dev, st_ino) different from those of all the directories passed on the way to it: a symbolic link that leads back to one of
    its own ancestors is never walked into and accepted (by C16_loop_raised the walk ends with the symlink-loop error there) *)
 Theorem C16_no_loop_is_walked_into : forall (L : hashlib) decompress pgp w l path pol lm l' b log,
-  wf_world w -> no_trailing_slash (pjoin rootdir path) ->
+  wf_world w -> rel_start path ->
   assert_directory_verifies L decompress pgp w l path pol lm = Ok (l', b, log) ->
   exists ed, get_file_entry_dict L decompress pgp w l path None true = Ok (l', ed) /\
-    forall dp rel anc, reachc w ed (pjoin rootdir path) path [] dp rel anc ->
+    forall dp rel anc, reachc w ed (walk_top path) path [] dp rel anc ->
       forall st, p_stat w dp = Ok st -> ~ In (st_dev st, st_ino st) anc.
-Proof. exact verification_walks_into_no_loop. Qed.
+Proof. exact verification_walks_into_no_loop_any. Qed.
 Print Assumptions C16_no_loop_is_walked_into.
 
 (* non-vacuity: the directory s holds an entry t that leads back to s itself; the premises hold, s/t is reached with the identity of
@@ -91,13 +91,13 @@ Definition c16_w : world :=
 Definition c16_dec : list N -> list N -> res (list N) := fun _ _ => Err XBadCompressed.
 Definition c16_pgp : list N -> res sigdata := fun _ => Err (XPGP PGPNoImpl).
 Example C16_loop_example :
-  wf_world c16_w /\ no_trailing_slash (pjoin rootdir [115]) /\
+  wf_world c16_w /\ no_trailing_slash (walk_top [115]) /\
   exists l0 l1 ed,
     new_loader (table_hashlib []) c16_dec c16_pgp c16_w [77;97;110;105;102;101;115;116] (mk_opts None false None [] PDefault None None false) false true = Ok l0 /\
     get_file_entry_dict (table_hashlib []) c16_dec c16_pgp c16_w l0 [115] None true = Ok (l1, ed) /\
-    reachc c16_w ed (pjoin rootdir [115]) [115] [] (pjoin (pjoin rootdir [115]) [116]) (pjoin [115] [116]) [(7, 4)] /\
-    (exists st, p_stat c16_w (pjoin (pjoin rootdir [115]) [116]) = Ok st /\ In (st_dev st, st_ino st) [(7, 4)]) /\
-    assert_directory_verifies (table_hashlib []) c16_dec c16_pgp c16_w l0 [115] PolFalse None = Err (XSymlinkLoop (pjoin (pjoin rootdir [115]) [116])).
+    reachc c16_w ed (walk_top [115]) [115] [] (pjoin (walk_top [115]) [116]) (pjoin [115] [116]) [(7, 4)] /\
+    (exists st, p_stat c16_w (pjoin (walk_top [115]) [116]) = Ok st /\ In (st_dev st, st_ino st) [(7, 4)]) /\
+    assert_directory_verifies (table_hashlib []) c16_dec c16_pgp c16_w l0 [115] PolFalse None = Err (XSymlinkLoop (pjoin (walk_top [115]) [116])).
 Proof.
   split.
   { intros i dev par ents Hin n t Hn. cbn in Hin. repeat (destruct Hin as [Hin|Hin]; [inversion Hin; subst; cbn in Hn|]); try destruct Hin.
@@ -109,3 +109,14 @@ Proof.
     intros dd H. vm_compute in H. repeat (destruct H as [H|H]; [inversion H; subst; reflexivity|]). destruct H. }
   split; [eexists; split; [vm_compute; reflexivity|left; reflexivity]|vm_compute; reflexivity].
 Qed.
+
+(* the top directory (finding D34, repaired): an entry d of the top directory leads back to it, d/d is IGNOREd; the verification of
+   the whole tree ends with the symlink-loop error for d - walk_top names the start directory without a trailing slash *)
+Definition c16_top_w : world :=
+  mk_world 1 [(1, IDir 7 1 [([77;97;110;105;102;101;115;116], TIno 2); ([100], TIno 1)]);
+              (2, IFile 7 0 11 [73;71;78;79;82;69;32;100;47;100;10])] [] [].
+Example C16_top_loop_example :
+  rel_start [] /\ exists l0,
+    new_loader (table_hashlib []) c16_dec c16_pgp c16_top_w [77;97;110;105;102;101;115;116] (mk_opts None false None [] PDefault None None false) false true = Ok l0 /\
+    assert_directory_verifies (table_hashlib []) c16_dec c16_pgp c16_top_w l0 [] PolFalse None = Err (XSymlinkLoop (pjoin (walk_top []) [100])).
+Proof. split; [exact I|]. eexists. split; [vm_compute; reflexivity|]. vm_compute. reflexivity. Qed.
